@@ -29,7 +29,7 @@ func init() {
 			"after a failure a second request meets a well-behaved camera. Oracle: success = right URL, correct credentials, stream under the requested path, camera packets reach the requester; failure = 404-style answer, nothing registered, " +
 			"camera connection closed, counters back, no goroutine left, later request dials afresh; concurrent requests end with one registered stream. distinct = event-log hash; non-trivial = a camera fault fired or a pre-emption",
 		Assumptions:    []string{"handshake and play timeouts are those of the code (15 s connect, 45 s read); 'promptly' is checked with a budget of 150 simulated seconds"},
-		RequiredProbes: []string{"c20.success", "c20.failure-clean", "c20.refetch-after-failure", "c20.concurrent-requests", "c20.camera-never-stops", "c20.idle-close-with-live-camera", "c20.cameras-drop-after-race", "c20.second-digest-challenge"},
+		RequiredProbes: []string{"c20.success", "c20.failure-clean", "c20.refetch-after-failure", "c20.concurrent-requests", "c20.camera-never-stops", "c20.idle-close-with-live-camera", "c20.cameras-drop-after-race", "c20.second-digest-challenge", "c20.camera-sends-requests"},
 	})
 }
 
@@ -57,6 +57,10 @@ func buildC20(tier string) sim.Scenario {
 		if tg.user != "" {
 			plan.auth = []string{"", "basic", "digest", "basic", "digest", "repeated"}[tp.Choose(6)]
 		}
+		if tp.OneIn(4) {
+			plan.askClient = true
+			w.Probe("c20.camera-sends-requests")
+		}
 		if plan.auth == "digest" && tp.OneIn(3) {
 			plan.renonce = 3 + tp.Choose(3) // the camera's nonce expires during the handshake: it challenges a second time
 			w.Probe("c20.second-digest-challenge")
@@ -80,6 +84,20 @@ func buildC20(tier string) sim.Scenario {
 		farm = &camFarm{w: w, plans: []camPlan{plan, good}}
 		simnet.Dial = farm.dial
 		defer farm.closeAll() // a camera that never stops sending must not outlive the script (the run would only end at the step cap)
+		defer func() {
+			// whatever happened: what the pull client wrote to a camera was a sequence of RTSP messages
+			farm.mu.Lock()
+			cams := append([]*fakeCam(nil), farm.cams...)
+			farm.mu.Unlock()
+			for _, c := range cams {
+				c.mu.Lock()
+				g := c.garbled
+				c.mu.Unlock()
+				if g != "" && !w.Failed() {
+					w.Fail("C20/client-stream-garbled", "the bytes the pull client sent to the camera stopped being RTSP messages (%s); the camera had sent requests of its own: %v", g, c.plan.askClient)
+				}
+			}
+		}()
 		endless := plan.step == -1 && plan.auth != "repeated" && tp.OneIn(4)
 		if endless {
 			plan.packets, plan.gap = 3000, 500*time.Millisecond
